@@ -114,6 +114,12 @@ func (ex *Exec) concIntrinsic(fn *ssa.Function, args []Value) (Value, bool) {
 		}
 		return c.cause, true
 	case "time.Sleep":
+		if ex.bounds["SLEEPBLOCKS"] != 0 {
+			// the sleeper stays parked until the harness lets time pass (verifAdvanceTime)
+			at := ex.clock
+			ex.wait(func() bool { return ex.clock > at }, "time.Sleep")
+			return nil, true
+		}
 		ex.yield()
 		return nil, true
 	}
